@@ -7,10 +7,67 @@
   `d.observe env` is what the property says must be reported.  The model functions
   are the mirror of elffile.py (Model/ElfFile.lean), instantiated with the Spec
   bundles, which the tie theorems (TieC01) prove equal to what /repo builds.
+
+  PROVED, for every description inside `wfZ` (⊇ `wf`) and every byte string that carries it:
+  construction and the decoded file header (`open_exact[_z]`), both counts through the
+  extended-numbering escapes (`counts_exact[_z]`), every section by index and in file order — kind,
+  name, every header field — (`get_section_exact[_z]`, `sections_exact[_z]`), every segment
+  (`segments_exact[_z]`), lookups by name through the reader's own functions
+  (`get_section_index_exact[_z]`, `has_section_exact[_z]`, `get_section_by_name_exact[_z]`, with
+  `lookup_last` / `lookup_absent` saying what the expected index is), codes (`codes_named`,
+  `codes_unnamed`), the machine factorisation (`machine_factor`), the assembler (`assemble_layout[_z]`);
+  the hypotheses are met by a concrete non-trivial description (last `example`).  For files WITHOUT a
+  name table in the shape of a Linux core dump with ≥ 0xffff segments: `extnum_only_partial`
+  (everything but the null section's name).
+
+  WHAT `wf` / `wfZ` EXCLUDE, clause by clause, and whether the property's quantifier ("every
+  well-formed ELF image …") covers it:
+  * `cls ∈ {32,64}`, `cfgOk`, `machineClasses.contains`: no image is excluded (they tie the redundant
+    parameters of the description to its header; every `e_machine` falls in a class: `machine_factor`).
+  * `regions = some _`: every field fits its width — necessary for the image to exist.
+  * `regionsDisjoint`: the ELF header, both tables and the DESCRIBED bodies do not overlap.  `body` is
+    optional: only the name table, a compression header, an attributes / hash section's on-sight
+    table need describing, so images whose data sections overlap each other (or lie beyond the end of
+    the file, or inside a segment …) are covered by leaving those bodies undescribed — `Layout`
+    constrains nothing else (the example's section 4 overlaps sections 1 and 2).  Overlap between the
+    header, the tables and the bytes the reader must read is not a well-formed image (gABI:
+    "Sections in a file may not overlap").  The exactness theorems themselves never use disjointness
+    (only `assemble_layout` does).
+  * `escapesOk`: the counts are where the header says (section 0 exists when an escape is used) —
+    gABI's own rule; the escapes may be used although the values would fit (`xShnum` …).
+  * `namesOk`, reachable name offsets: the names sit NUL-terminated in the body of section
+    `e_shstrndx`.  EXCLUDED AND COVERED BY THE PROPERTY: files with sections and `e_shstrndx` =
+    SHN_UNDEF ("the file has no section name string table", gABI) — the library takes section 0 for
+    the name table and reports bytes of the ELF header as every name: known finding `no-name-table`
+    (Spec/ElfNoNames.lean recognises the class; the check generates it on every run;
+    `extnum_only_partial` proves the rest for the one shape that is common: the kernel's core dumps
+    with ≥ 0xffff segments — which is how the "≥ 0xffff segments" of the quantifier occur in practice).  Names that are
+    not valid UTF-8 are NOT excluded: the theorems hold for them (names are bytes here).  The library's
+    `str` API reports them decoded with U+FFFD replacement; that decoding is modelled separately
+    (Model/Utf8.lean, compared with CPython's decoder on every run) and applied by the driver, so the
+    correspondence check covers such files; only the direct property comparison sets them aside.
+  * entry sizes: `≥` the structure (equal or LARGER, as the property says), and only when the table is
+    non-empty.
+  * `shoff + n·shentsize < 2^63`, `n, m < 2^32`: no file is that large.
+  * `0 < shoff` / `0 < phoff` for non-empty tables: offset 0 means "no table" (gABI).
+  * `shstrndx < n`; `n = 0 → shstrndx = 0`: a file without section headers has no name table, so
+    gABI wants SHN_UNDEF there; an image with `e_shoff` = 0 and `e_shstrndx` ≠ 0 is not well formed
+    (the library reads a "section header" at `e_shstrndx · e_shentsize` from such a file).
+  * `secOkZ`: the links the constructors follow designate tables of the type gABI's sh_link table /
+    the GNU and Sun documents prescribe (string table for symbol tables, verneed, verdef, dynamic;
+    symbol table for versym, syminfo, hash, GNU hash), `sh_entsize` is the entry size for REL / RELA /
+    RELR and divides `sh_size` for symbol tables, attribute sections begin with 'A', hash tables fit
+    their section, a SHF_COMPRESSED section holds a full compression header.  An out-of-range or
+    ill-typed `sh_link` in one of these kinds is not a well-formed image; for every other kind
+    `sh_link` and all other fields are arbitrary.
 -/
 import PyElf.Model.ElfFile
 import PyElf.Spec.ElfImage
 import PyElf.Proofs.ElfFile
+import PyElf.Model.ElfLookup
+import PyElf.Proofs.ElfLookup
+import PyElf.Proofs.ElfExample
+import PyElf.Proofs.ElfExtnum
 import PyElf.Props.TieC01
 namespace PyElf.Props.C01
 open PyElf PyElf.Spec PyElf.Model PyElf.Proofs
@@ -148,5 +205,139 @@ theorem segments_exact_z (env : Env) (d : ElfDesc) (bytes : Bytes) (obs : ElfObs
     iterSegments env f.S bytes f.header f.shstr = .ok obs.segments := by
   rw [specStructs_eq, specMachineClass_eq] at hf
   exact segments_aux_z hwf hl ho hf
+
+/-! ### lookups by section name, end to end (fourth wave)
+
+  `lookup_exact` above speaks about the name map of the OBSERVATION.  The theorems below speak about
+  the reader's own functions (`get_section_index`, `has_section`, `get_section_by_name`, mirrored in
+  Model/ElfLookup.lean) run on the bytes: they build the map from one enumeration of the file and
+  answer exactly what the description says, and `ElfDesc.indexOfName` is characterised — the LAST
+  section bearing the name (`lookup_last`), nothing exactly when no section bears it
+  (`lookup_absent`): "lookups by section name or index agree with the enumeration". -/
+
+/-- `get_section_index(name)`: the index of the last section bearing the name, `None` when absent -/
+theorem get_section_index_exact_z (env : Env) (d : ElfDesc) (bytes : Bytes) (obs : ElfObs) (f : ElfFile)
+    (hwf : d.wfZ env = true) (hl : Layout d bytes) (ho : d.observe env = .ok obs)
+    (hf : openElf env specStructs specMachineClass bytes = .ok f) (name : Bytes) :
+    Model.C01.getSectionIndex env f.S bytes f.header f.shstr name = .ok (d.indexOfName name) := by
+  rw [specStructs_eq, specMachineClass_eq] at hf
+  exact Proofs.C01.getSectionIndex_gen (wfZ_facts hwf) hl ho hf name
+
+/-- `has_section(name)` -/
+theorem has_section_exact_z (env : Env) (d : ElfDesc) (bytes : Bytes) (obs : ElfObs) (f : ElfFile)
+    (hwf : d.wfZ env = true) (hl : Layout d bytes) (ho : d.observe env = .ok obs)
+    (hf : openElf env specStructs specMachineClass bytes = .ok f) (name : Bytes) :
+    Model.C01.hasSection env f.S bytes f.header f.shstr name = .ok (d.indexOfName name).isSome := by
+  rw [specStructs_eq, specMachineClass_eq] at hf
+  exact Proofs.C01.hasSection_gen (wfZ_facts hwf) hl ho hf name
+
+/-- `get_section_by_name(name)`: the section the enumeration reports at that index (kind, name, every
+    header field), `None` when absent -/
+theorem get_section_by_name_exact_z (env : Env) (d : ElfDesc) (bytes : Bytes) (obs : ElfObs) (f : ElfFile)
+    (hwf : d.wfZ env = true) (hl : Layout d bytes) (ho : d.observe env = .ok obs)
+    (hf : openElf env specStructs specMachineClass bytes = .ok f) (name : Bytes) :
+    Model.C01.getSectionByName env f.S bytes f.header f.shstr name
+      = .ok (match d.indexOfName name with
+             | none => none
+             | some i => obs.sections[i]?) := by
+  rw [specStructs_eq, specMachineClass_eq] at hf
+  exact Proofs.C01.getSectionByName_gen (wfZ_facts hwf) hl ho hf name
+
+/-- the same three for `wf` descriptions -/
+theorem get_section_index_exact (env : Env) (d : ElfDesc) (bytes : Bytes) (obs : ElfObs) (f : ElfFile)
+    (hwf : d.wf env = true) (hl : Layout d bytes) (ho : d.observe env = .ok obs)
+    (hf : openElf env specStructs specMachineClass bytes = .ok f) (name : Bytes) :
+    Model.C01.getSectionIndex env f.S bytes f.header f.shstr name = .ok (d.indexOfName name) :=
+  get_section_index_exact_z env d bytes obs f (wf_imp_wfZ env d hwf) hl ho hf name
+
+theorem has_section_exact (env : Env) (d : ElfDesc) (bytes : Bytes) (obs : ElfObs) (f : ElfFile)
+    (hwf : d.wf env = true) (hl : Layout d bytes) (ho : d.observe env = .ok obs)
+    (hf : openElf env specStructs specMachineClass bytes = .ok f) (name : Bytes) :
+    Model.C01.hasSection env f.S bytes f.header f.shstr name = .ok (d.indexOfName name).isSome :=
+  has_section_exact_z env d bytes obs f (wf_imp_wfZ env d hwf) hl ho hf name
+
+theorem get_section_by_name_exact (env : Env) (d : ElfDesc) (bytes : Bytes) (obs : ElfObs) (f : ElfFile)
+    (hwf : d.wf env = true) (hl : Layout d bytes) (ho : d.observe env = .ok obs)
+    (hf : openElf env specStructs specMachineClass bytes = .ok f) (name : Bytes) :
+    Model.C01.getSectionByName env f.S bytes f.header f.shstr name
+      = .ok (match d.indexOfName name with
+             | none => none
+             | some i => obs.sections[i]?) :=
+  get_section_by_name_exact_z env d bytes obs f (wf_imp_wfZ env d hwf) hl ho hf name
+
+/-- what the description's `indexOfName` means: a name that is found designates a section bearing
+    it, and no later section bears it (Python dict overwrite: the last wins) -/
+theorem lookup_last (d : ElfDesc) (name : Bytes) (i : Nat) (h : d.indexOfName name = some i) :
+    ∃ hi : i < d.sections.length, (d.sections[i]).name = name ∧
+      ∀ j (hj : j < d.sections.length), i < j → (d.sections[j]).name ≠ name :=
+  Proofs.C01.indexOfName_some h
+
+/-- … and a name that is not found is borne by no section -/
+theorem lookup_absent (d : ElfDesc) (name : Bytes) (h : d.indexOfName name = none) :
+    ∀ s ∈ d.sections, s.name ≠ name :=
+  Proofs.C01.indexOfName_none h
+
+/-! ### files without a section-name string table (`e_shstrndx` = SHN_UNDEF) — partial
+
+  FULL statement: for every well-formed description with sections and no name table
+  (`Spec.C01.wfNoNames`) the theorems above hold, in particular
+  `iterSections … = .ok obs.sections` with every name empty.
+  It is FALSE of the code (known finding `no-name-table`: the reader takes section 0 for the name
+  table and reports the bytes at file offset `sh_offset[0] + sh_name` as the name).
+
+  PROVED (`extnum_only_partial`), for the shape of such files that occurs in practice — what the
+  Linux kernel writes for a core dump with ≥ 0xffff segments: ONE section header, SHT_NULL, carrying
+  the escapes (`Spec.C01.extnumOnly`; extra hypothesis: exactly that shape) —: construction, the file
+  header, both counts (the real segment count through PN_XNUM / `sh_info[0]`), every segment in file
+  order, and the one section with its kind and every header field; its NAME is what the finding says
+  (`Proofs.C01.nameAt`: the NUL-terminated bytes at `sh_offset[0] + sh_name[0]`, empty only when a
+  NUL sits there), not the empty name the description gives it.  So the ≥ 0xffff-segment images of
+  the quantifier are covered by theorems in the form they really have, name of the null section aside. -/
+theorem extnum_only_partial (env : Env) (d : ElfDesc) (bytes : Bytes) (obs : ElfObs)
+    (hx : Spec.C01.extnumOnly env d = true) (hl : Layout d bytes) (ho : d.observe env = .ok obs) :
+    ∃ f s0 nm, openElf env specStructs specMachineClass bytes = .ok f ∧
+      f.data = bytes ∧ f.cls = d.cls ∧ f.le = d.le ∧ f.S = d.S ∧ f.header = obs.header ∧
+      d.sections = [s0] ∧ nm = Proofs.C01.nameAt bytes (getNatD s0.hdr "sh_offset") s0.nameOff ∧
+      numSections env f.S bytes f.header = .ok 1 ∧
+      numSegments env f.S bytes f.header f.shstr = .ok d.segments.length ∧
+      iterSegments env f.S bytes f.header f.shstr = .ok obs.segments ∧
+      iterSections env f.S bytes f.header f.shstr = .ok (obs.sections.map fun s => (s.1, nm, s.2.2)) ∧
+      obs.sections.map (·.1) = ["NullSection"] := by
+  rw [specStructs_eq, specMachineClass_eq]
+  exact Proofs.C01.extnum_gen hx hl ho
+
+/-- non-vacuity: a core file of that shape (`Proofs/ElfExample.lean` `exC`: ET_CORE, `e_shnum` = 1,
+    `e_shstrndx` = 0, PN_XNUM with the count 2 in `sh_info[0]`, a PT_NOTE and a PT_LOAD segment), which is
+    outside `wfZ` -/
+example : ∃ bytes obs, Spec.C01.extnumOnly Proofs.C01.Ex.exEnv Proofs.C01.Ex.exC = true ∧
+    Proofs.C01.Ex.exC.wfZ Proofs.C01.Ex.exEnv = false ∧ Layout Proofs.C01.Ex.exC bytes ∧
+    Proofs.C01.Ex.exC.observe Proofs.C01.Ex.exEnv = .ok obs ∧ obs.segments.length = 2 := by
+  obtain ⟨bytes, hl⟩ := Proofs.C01.Ex.exC_layout
+  obtain ⟨obs, ho⟩ := Proofs.C01.Ex.exC_observes
+  refine ⟨bytes, obs, Proofs.C01.Ex.exC_extnumOnly, Proofs.C01.Ex.exC_not_wfZ, hl, ho, ?_⟩
+  exact (Proofs.mapM_ok_inv _ _ _ (Proofs.observe_inv ho).2.2).1
+
+/-! ### non-vacuity of the hypotheses (`wfZ`, `Layout`, `observe`, a successful `openElf`)
+
+  `Proofs/ElfExample.lean`: an ELF32 LSB description with five sections and one segment — section 0
+  carries the section count and the name-table index by the extended-numbering escapes although
+  they would fit, section 1 is SHF_COMPRESSED with a bare `Elf32_Chdr` as body (so the description is
+  inside `wfZ` and outside `wf`), sections 1 and 2 bear the same name, section 3 is a symbol table
+  linked to the name table, section 4 overlaps sections 1 and 2 in the file (its bytes are not
+  described), `e_shentsize` = 48 > 40, `e_phentsize` = 40 > 32, `e_machine` is an unnamed code.  The
+  assembler lays it out, so every hypothesis of every theorem above is met by it. -/
+example : ∃ bytes obs f,
+    Proofs.C01.Ex.exD.wfZ Proofs.C01.Ex.exEnv = true ∧ Proofs.C01.Ex.exD.wf Proofs.C01.Ex.exEnv = false ∧
+    Layout Proofs.C01.Ex.exD bytes ∧ Proofs.C01.Ex.exD.observe Proofs.C01.Ex.exEnv = .ok obs ∧
+    openElf Proofs.C01.Ex.exEnv specStructs specMachineClass bytes = .ok f ∧
+    iterSections Proofs.C01.Ex.exEnv f.S bytes f.header f.shstr = .ok obs.sections ∧
+    Model.C01.getSectionIndex Proofs.C01.Ex.exEnv f.S bytes f.header f.shstr [0x2e, 0x61] = .ok (some 2) := by
+  obtain ⟨bytes, hb⟩ := Proofs.C01.Ex.exD_assembles
+  obtain ⟨obs, ho⟩ := Proofs.C01.Ex.exD_observes
+  have hwf := Proofs.C01.Ex.exD_wfZ
+  have hl := assemble_layout_z _ _ 0 bytes hwf hb
+  obtain ⟨f, hf, -⟩ := open_exact_z _ _ bytes obs hwf hl ho
+  refine ⟨bytes, obs, f, hwf, Proofs.C01.Ex.exD_not_wf, hl, ho, hf, sections_exact_z _ _ bytes obs f hwf hl ho hf, ?_⟩
+  rw [get_section_index_exact_z _ _ bytes obs f hwf hl ho hf, Proofs.C01.Ex.exD_lookup]
 
 end PyElf.Props.C01
